@@ -35,7 +35,8 @@ UNARY = ["inverse", "copy", "to_array", "to_compact", "position", "orientation",
 EDGE_QUERIES = ["edge_error", "edge_chi2", "edge_jacobians", "edge_cgh", "edge_numeric_jacobians", "edge_to_g2o",
                 "edge_equals_self", "edge_equals_clone", "buffer_error", "buffer_jacobians", "buffer_cgh"]
 VERTEX_QUERIES = ["vertex_to_g2o", "vertex_equals_self", "vertex_equals_other"]
-GRAPH_QUERIES = ["graph_chi2", "graph_equals_clone", "graph_equals_perturbed", "graph_export", "graph_export", "params_to_g2o", "graph_deepcopy", "graph_pickle"]
+GRAPH_QUERIES = ["graph_chi2", "graph_equals_clone", "graph_equals_perturbed", "graph_export", "graph_export", "params_to_g2o", "graph_deepcopy", "graph_pickle",
+                 "twin_equals", "twin_equals", "twin_chi2", "twin_chi2"]
 POSE_QUERIES = ["pose_unary", "pose_binary", "pose_jac_unary", "pose_jac_binary", "pose_jac_point", "pose_boxplus",
                 "pose_alias_iadd", "pose_copy_independent", "pose_views_independent", "pose_equals", "pose_held_result", "pose_held_result"]
 
@@ -186,7 +187,7 @@ class C15(OptEngineBase):
     ]
     PROBES = [
         "numeric_jacobian_on_fixed_vertex", "same_vertex_twice_in_edge", "nary_edge", "export_failed", "export_ok", "optimize_failed",
-        "alias_test", "returned_buffer_test", "history_len_50", "copy_test", "query_raised_naturally", "optimize_ok", "raw_heading_written_in_place", "held_result_test",
+        "alias_test", "returned_buffer_test", "history_len_50", "copy_test", "query_raised_naturally", "optimize_ok", "raw_heading_written_in_place", "held_result_test", "question_asked_again_later",
     ]
 
     # ------------------------------------------------------------------ generate
@@ -216,6 +217,16 @@ class C15(OptEngineBase):
             if table:
                 workload["params"] = [{"key": ["PARAMS_SE3OFFSET", k], "v": v} for k, v in table.items()]
                 meta["params"] = len(table)
+                if rng.random() < 0.25:
+                    # a table entry that differs from the edges' offset in the 9th digit (the export must be refused; it
+                    # must not "repair" the edge by adopting the table's pose)
+                    from .core import fx as _fx, xf as _xf
+
+                    ent = rng.choice(workload["params"])
+                    vals = [_xf(x) for x in ent["v"]["v"]]
+                    vals[0] = vals[0] + 1e-9 * max(1.0, abs(vals[0]))
+                    ent["v"] = {"t": "SE3", "v": [_fx(x) for x in vals]}
+                    meta["near_equal_param"] = True
         # some SE(2) headings are written in place by the owner of the graph (v.pose[2] = theta): in range, but not a
         # value the constructor's wrap would have produced
         if rng.random() < 0.25:
@@ -264,6 +275,19 @@ class C15(OptEngineBase):
                 if q == "pose_held_result":
                     o["m"] = rng.choice(JAC_UNARY + JAC_UNARY + JAC_BINARY + JAC_POINT + ["to_array", "to_compact", "position", "to_matrix", "inverse", "copy"])
                 ops.append(o)
+        # ask an earlier question again later (no optimize in between): the answer must not have changed
+        qi = [k for k, o in enumerate(ops) if o["op"] == "q" and o["q"] not in ("graph_export", "graph_deepcopy", "graph_pickle")]
+        for _ in range(min(6, len(qi) // 3)):
+            j = rng.choice(qi)
+            later = [k for k in range(j + 1, len(ops) + 1) if all(o["op"] != "optimize" for o in ops[j:k])]
+            if later:
+                at = rng.choice(later)
+                ops.insert(at, dict(ops[j], again_of=j))
+                qi = [k if k < at else k + 1 for k in qi]
+        # again_of refers to positions before the insertions; re-resolve by identity of content: store the question text
+        for o in ops:
+            if "again_of" in o:
+                o["again_of"] = True
         meta["n_queries"] = n_q
         case = {"config": config, "workload": workload, "meta": meta, "ops": ops, "faults": []}
         if rng.random() < 0.55:
@@ -354,6 +378,10 @@ class C15(OptEngineBase):
         if q == "graph_export":
             g.to_g2o(op["path"])
             return "exported"
+        if q == "twin_equals":
+            return [g.equals(self._twin), self._twin.equals(g)]
+        if q == "twin_chi2":
+            return float(self._twin.calc_chi2()) if self._twin._edges else 0.0
         if q in ("graph_deepcopy", "graph_pickle"):
             import pickle
 
@@ -478,6 +506,11 @@ class C15(OptEngineBase):
         n_opt_ok = 0
         with World(case.get("config"), None if dry else case.get("faults"), log) as w:
             g = build_c15(case["workload"])
+            # a second, persistent graph that equals g within the default tolerance (but not bitwise)
+            self._twin = build_c15(case["workload"])
+            for tv in self._twin._vertices[:1]:
+                tv.pose = tv.pose + np.full(tv.pose.COMPACT_DIMENSIONALITY, 3e-7)
+            answers = {}  # question -> canonical answer since the last optimize
             snap = snapshot(g)
             if not dry and meta.get("raw_heading"):
                 res.probe("raw_heading_written_in_place")
@@ -509,6 +542,11 @@ class C15(OptEngineBase):
                         res.violate("C15:optimize-frame", "op %d optimize(fix_first_pose=True) left the first vertex unfixed" % i)
                         break
                     snap = now
+                    answers = {}
+                    # the twin follows (so that it stays "equal within tolerance")
+                    self._twin = graphs.clone(g)
+                    for tv in self._twin._vertices[:1]:
+                        tv.pose = tv.pose + np.full(tv.pose.COMPACT_DIMENSIONALITY, 3e-7)
                     continue
                 # a query, executed twice
                 n_q += 1
@@ -555,6 +593,18 @@ class C15(OptEngineBase):
                     if op["q"] == "graph_export":
                         res.probe("export_ok")
                 injected_first = isinstance(vals[0], OSError) and op["q"] == "graph_export"
+                qkey = core_hash({k: v for k, v in op.items() if k not in ("op", "again_of")})
+                if not injected_first and not isinstance(vals[0], BaseException):
+                    if qkey in answers:
+                        res.n_checks += 1
+                        res.probe("question_asked_again_later")
+                        if answers[qkey] != c0:
+                            res.violate("C15:repeat-differs-later:" + op["q"],
+                                        "op %d query %s: the same question was asked earlier in this history (no optimize in between) and answered %s; now %s"
+                                        % (i, {k: v for k, v in op.items() if k not in ("op", "again_of")}, short(answers[qkey]), short(c0)))
+                            break
+                    else:
+                        answers[qkey] = c0
                 res.n_checks += 1
                 if c0 != c1 and not injected_first:
                     res.violate("C15:repeat-differs:" + op["q"] + (":" + op["m"] if "m" in op else ""),
